@@ -351,7 +351,19 @@ func runCache(t *testing.T, scAny any, trace bool) *Outcome {
 		start := simrt.Now()
 		for i, op := range sc.Ops {
 			if op.Op == "sleep" {
-				simrt.Sleep(time.Duration(op.DtNs))
+				// never land exactly on an expiry instant (the property does not say
+				// which side of the boundary an entry is on); holds under shrinking too
+				dt := time.Duration(op.DtNs)
+				for again := true; again; {
+					again = false
+					for _, e := range m.entries {
+						if e.expire == simrt.Now()-start+dt {
+							dt++
+							again = true
+						}
+					}
+				}
+				simrt.Sleep(dt)
 				continue
 			}
 			now := simrt.Now() - start
